@@ -15,6 +15,12 @@ variable {K : Type} [Field K] [LinearOrder K] [IsStrictOrderedRing K]
 /-- the `m×n` matrix stored in a buffer -/
 def matOf (A : Array K) (rs cs m n : Nat) : Matrix (Fin m) (Fin n) K := fun i j => A.getD (i.val * rs + j.val * cs) 0
 
+/-- the transposed matrix is the same buffer read with swapped strides -/
+theorem matOf_transpose (A : Array K) (rs cs m n : Nat) : (matOf A rs cs m n)ᵀ = matOf A cs rs n m := by
+  ext i j
+  show A.getD (j.val * rs + i.val * cs) 0 = A.getD (i.val * cs + j.val * rs) 0
+  rw [Nat.add_comm]
+
 /-- a `Nat`-indexed table as an `m×n` matrix -/
 def natMat (M : Nat → Nat → K) (m n : Nat) : Matrix (Fin m) (Fin n) K := fun l c => M l.val c.val
 
